@@ -15,6 +15,7 @@ Tie (three streams, all compared with the Lean model `C06.Impl` through drivers/
 import ast
 import itertools
 
+import warnings
 import numpy as np
 
 import nengo_spa as spa
@@ -699,6 +700,40 @@ def value_streams(ctx, budget):
                   branch=f"name-{tag}-" + ("ellipsis" if "..." in long_sp.name else "long-without-ellipsis"))
         if "..." not in long_sp.name:
             ctx.note(f"name of 261 summands not shortened (len {len(long_sp.name)})")
+
+        # directly nested unary operators: three characters per level, the deepest nesting a name can reach
+        # below MAX_NAME.  Unshortened names must parse to the pointer's vector; building the pointer must work.
+        for uname, ufn in (("neg", lambda p, i: -p), ("inv", lambda p, i: ~p), ("alt", lambda p, i: -p if i % 2 else ~p)):
+            for n in (60, 150, 199, 201, 230, 300, 341, 345, 600, 1100):
+                case = {"stream": "name", "algebra": tag, "d": d, "expr": f"{uname} x {n} on A", "nesting": n}
+                sp = vocab["A"]
+                try:
+                    with warnings.catch_warnings():
+                        warnings.simplefilter("ignore")
+                        for i in range(n):
+                            sp = ufn(sp, i)
+                    name = sp.name
+                except BaseException as ex:  # noqa: BLE001
+                    if isinstance(ex, (KeyboardInterrupt, SystemExit)):
+                        raise
+                    ctx.fail(case, f"{type(ex).__name__}"[:80], "a pointer with a name", where="name-deep-unary-raises")
+                    continue
+                if name is None or "..." in name:
+                    ctx.count(f"N {tag} deep {uname} {n}", nontrivial=False, branch=f"name-{tag}-deep-ellipsis")
+                    continue
+                ctx.count(f"N {tag} deep {uname} {n}", branch=f"name-{tag}-deep-unary")
+                case["name_length"] = len(name)
+                try:
+                    with warnings.catch_warnings():
+                        warnings.simplefilter("ignore")
+                        pv = vocab.parse(name).v
+                    if not np.allclose(pv, sp.v, rtol=0, atol=1e-9):
+                        ctx.fail(case, "parse(name).v differs", "equal to the pointer's vector (1e-9)", where="name-deep-unary-value")
+                except Exception as ex:  # noqa: BLE001
+                    cls = ("cpython-nesting-limit" if isinstance(ex, SyntaxError) and "too many nested parentheses" in str(ex)
+                           and n > 199 else "other")
+                    ctx.fail(dict(case, **{"class": cls}), f"{type(ex).__name__}: {str(ex)[:80]}",
+                             "parse(name) succeeds: the name carries no ellipsis", where="name-deep-unary-parse")
 
 
 def _run(ctx, budget):
